@@ -99,6 +99,11 @@ pub struct Request {
     #[cfg(feature="__rt_native__")]
     pub(super/* for test */) __buf__: Box<[u8; BUF_SIZE]>,
 
+    /// range of `__buf__` holding bytes that came with this request but belong to the next one
+    /// ( a client can send requests without waiting for each response, and TCP can coalesce them )
+    #[cfg(feature="__rt_native__")]
+    __carry__: (usize, usize),
+
     #[cfg(feature="rt_worker")]
     pub(super/* for test */) __url__: std::mem::MaybeUninit<::worker::Url>,
 
@@ -190,6 +195,8 @@ impl Request {
 
             #[cfg(feature="__rt_native__")]
             __buf__: Box::new([0; BUF_SIZE]),
+            #[cfg(feature="__rt_native__")]
+            __carry__: (0, 0),
             #[cfg(feature="rt_worker")]
             __url__: std::mem::MaybeUninit::uninit(),
             #[cfg(feature="rt_lambda")]
@@ -207,7 +214,12 @@ impl Request {
     #[inline]
     pub(crate) fn clear(&mut self) {
         if self.__buf__[0] != 0 {
-            for b in &mut *self.__buf__ {
+            /* bytes of the next request go to the head of the buffer, not away */
+            let (start, end) = self.__carry__;
+            self.__buf__.copy_within(start..end, 0);
+            self.__carry__ = (0, end - start);
+
+            for b in &mut self.__buf__[(end - start)..] {
                 match b {0 => break, _ => *b = 0}
             }
             self.path  = Path::uninit();
@@ -226,7 +238,10 @@ impl Request {
     ) -> Result<Option<()>, crate::Response> {
         use crate::Response;
 
-        let n = match stream.read(&mut *self.__buf__).await {
+        /* when the former request brought (a part of) this one with it, it's already in the buffer */
+        let (_, carried) = std::mem::take(&mut self.__carry__);
+
+        let n = match if carried > 0 {Ok(carried)} else {stream.read(&mut *self.__buf__).await} {
             Ok (0) => return Ok(None),
             Err(e) => return match e.kind() {
                 std::io::ErrorKind::ConnectionReset => Ok(None),
@@ -335,6 +350,9 @@ impl Request {
             }
             None => 0,
         };
+        /* what follows this request in the buffer is (the beginning of) the next request */
+        self.__carry__ = ((n - r.remaining().len()).saturating_add(content_length).min(n), n);
+
         match content_length {
             0 => (),
             PAYLOAD_LIMIT.. => return Err((|| Response::PayloadTooLarge())()),
